@@ -54,6 +54,8 @@ CLS = {
     "default-bad-value": "EDefaultBadValue", "json-conflict": "EJsonConflict",
     "enum-json-conflict": "EEnumJsonConflict", "closed-enum-implicit": "EClosedEnumImplicit",
     "default-implicit": "EDefaultImplicit", "map-enum-first-zero": "EMapEnumFirstZero",
+    "extdecl-reserved": "EExtDeclReserved", "extdecl-name": "EExtDeclName", "extdecl-type": "EExtDeclType",
+    "extdecl-repeated": "EExtDeclRepeated", "extdecl-missing": "EExtDeclMissing", "extdecl-bad": "EExtDeclBad",
 }
 
 
@@ -155,7 +157,15 @@ def coq_melem(e):
     if k == "extend":
         return "(MExtend %s %s)" % (cbytes(e["extendee"]), clist([coq_melem(x) for x in e["elems"]]))
     if k == "extensions":
-        return "(MExtensions %s)" % coq_ranges(e["ranges"])
+        xo = e.get("xopts")
+        if xo is None:
+            return "(MExtensions %s)" % coq_ranges(e["ranges"])
+        ver = {None: "None", "DECLARATION": "(Some true)", "UNVERIFIED": "(Some false)"}[xo["verification"]]
+        decls = ["(mkXDecl %s %s %s %s %s)" % (copt(None if d["number"] is None else cz(d["number"])),
+                                             copt(None if d["full_name"] is None else cbytes(bytes.fromhex(d["full_name"]))),
+                                             copt(None if d["type"] is None else cbytes(bytes.fromhex(d["type"]))),
+                                             cbool(d["reserved"]), cbool(d["repeated"])) for d in xo["decls"]]
+        return "(MExtensionsOpt %s (mkXOpts %s %s))" % (coq_ranges(e["ranges"]), ver, clist(decls))
     if k == "reserved":
         return "(MReserved %s)" % coq_ranges(e["ranges"])
     if k == "reserved_names":
@@ -339,6 +349,34 @@ class Renderer:
             toks += [o["name"], "="] + self.val(o["val"])
         return toks + ["]"]
 
+    def xopts(self, xo):
+        if xo is None:
+            return []
+        items = []
+        if xo["verification"] is not None:
+            items.append(["verification", "=", xo["verification"]])
+        for d in xo["decls"]:
+            t = ["declaration", "=", "{"]
+            if d["number"] is not None:
+                t += ["number", ":", self.num(d["number"])]
+            if d["full_name"] is not None:
+                t += ["full_name", ":", self.string(bytes.fromhex(d["full_name"]))]
+            if d["type"] is not None:
+                t += ["type", ":", self.string(bytes.fromhex(d["type"]))]
+            if d["reserved"]:
+                t += ["reserved", ":", "true"]
+            if d["repeated"]:
+                t += ["repeated", ":", "true"]
+            items.append(t + ["}"])
+        if not items:
+            return []
+        toks = ["["]
+        for i, it in enumerate(items):
+            if i:
+                toks.append(",")
+            toks += it
+        return toks + ["]"]
+
     def ranges(self, rs):
         toks = []
         for i, r in enumerate(rs):
@@ -390,7 +428,7 @@ class Renderer:
         if k == "extend":
             return ["extend", e["extendee"], "{"] + self.body(e["elems"]) + ["}"]
         if k == "extensions":
-            return ["extensions"] + self.ranges(e["ranges"]) + [";"]
+            return ["extensions"] + self.ranges(e["ranges"]) + self.xopts(e.get("xopts")) + [";"]
         if k == "reserved":
             return ["reserved"] + self.ranges(e["ranges"]) + [";"]
         if k == "reserved_names":
@@ -578,6 +616,12 @@ class Gen:
             e = FIELD_MAX if x["max"] else (x["s"] if x["e"] is None else x["e"])
             blocked.append((x["s"], e))
         trec["extr"] = [(x["s"], FIELD_MAX if x["max"] else (x["s"] if x["e"] is None else x["e"])) for x in ext]
+        adj_cuts = None
+        if syntax != "proto3" and r.chance(1, 3 if self.small else 4):
+            adj_cuts = [600]
+            for _ in range(r.range(2, 3)):
+                adj_cuts.append(adj_cuts[-1] + r.range(1, 6))
+            blocked.append((600, adj_cuts[-1]))
 
         def fresh_num():
             for _ in range(50):
@@ -663,6 +707,8 @@ class Gen:
             body.insert(r.below(len(body) + 1), {"k": "reserved", "ranges": r.shuffle(rsv)})
         if ext:
             body.insert(r.below(len(body) + 1), {"k": "extensions", "ranges": r.shuffle(ext)})
+        if adj_cuts:
+            self.gen_declared_ranges(fi, fqn, syntax, trec, body, adj_cuts)
         if r.chance(1, 4):
             nm = [self.uniq("old_") for _ in range(r.range(1, 2))]
             if syntax == "editions":
@@ -674,6 +720,52 @@ class Gen:
             if ex:
                 body.append(ex)
         return {"k": "message", "name": name, "body": body}
+
+    def gen_declared_ranges(self, fi, fqn, syntax, trec, body, cuts):
+        """two to three ADJACENT extension ranges (600..), each with or without declarations, and a nested extend
+        block whose extensions sit on the boundaries and match their declarations"""
+        r = self.rng
+        ranges = [(cuts[i], cuts[i + 1] - 1) for i in range(len(cuts) - 1)]
+        stmts, exts = [], []
+        for (a, b) in ranges:
+            declared = r.chance(1, 2)
+            xo = None
+            if declared:
+                decls = []
+                for n in sorted(set([a, b] + [r.range(a, b) for _ in range(r.range(0, 2))])):
+                    if not r.chance(3, 4):
+                        continue
+                    self.n += 1
+                    nm = "xd%d" % self.n
+                    ty = r.choice(SCALARS + ["." + fqn])
+                    rep = r.chance(1, 4)
+                    if r.chance(1, 6):
+                        decls.append({"number": n, "full_name": None, "type": None, "reserved": True, "repeated": False})
+                        continue
+                    decls.append({"number": n, "full_name": ("." + fqn + "." + nm).encode().hex(), "type": ty.encode().hex(),
+                                  "reserved": False, "repeated": rep})
+                    if r.chance(3, 4):
+                        lbl = "repeated" if rep else ("optional" if syntax == "proto2" else "")
+                        exts.append({"k": "field", "label": lbl, "type": ty, "name": nm, "num": n, "opts": []})
+                xo = {"verification": r.choice(["DECLARATION", None] if decls else ["DECLARATION"]), "decls": decls}
+            else:
+                if r.chance(1, 4):
+                    xo = {"verification": "UNVERIFIED", "decls": []}
+                for n in sorted(set([a, b])):
+                    if r.chance(1, 2):
+                        self.n += 1
+                        exts.append({"k": "field", "label": "optional" if syntax == "proto2" else "", "type": r.choice(SCALARS),
+                                     "name": "xu%d" % self.n, "num": n, "opts": []})
+            st = {"k": "extensions", "adj": True, "ranges": [{"s": a, "e": None if a == b and r.chance(1, 2) else b, "max": False}]}
+            if xo is not None:
+                st["xopts"] = xo
+            stmts.append(st)
+            trec["extr"].append((a, b))
+            self.extnums.setdefault(fqn, set()).update(range(a, b + 1))     # keep gen_extend away from these ranges
+        for st in stmts:          # ascending order in the source, as the ranges of the descriptor
+            body.append(st)
+        if exts:
+            body.append({"k": "extend", "extendee": r.choice(["." + fqn, fqn]), "elems": r.shuffle(exts)})
 
     def gen_default(self, ty, tref):
         r = self.rng
@@ -750,15 +842,55 @@ class Gen:
             return None
         return {"k": "service", "name": self.uniq("Svc"), "methods": ms}
 
+    STD = "google/protobuf/descriptor.proto"
+    STD_MSGS = ("FileOptions", "FieldOptions", "OneofOptions", "EnumValueOptions", "ServiceOptions", "MethodOptions")
+
+    def std_file(self):
+        """a stand-in for descriptor.proto (the source resolver takes precedence over the built-in one): the options
+        messages with an extension range, so that proto3 files can declare custom options"""
+        # only options messages none of whose own fields the fragment uses (a stand-in without allow_alias or
+        # message_set_wire_format would hide the built-in EnumOptions / MessageOptions)
+        decls = []
+        for nm in self.STD_MSGS:
+            decls.append({"k": "message", "name": nm, "body": [{"k": "extensions", "ranges": [{"s": 1000, "e": None, "max": True}]}]})
+        return {"name": self.STD, "syntax": "proto2", "edition": "", "package": "google.protobuf", "imports": [], "decls": decls}
+
+    def option_extends(self, fi, syntax, f):
+        """extend blocks for custom options: at file level and nested 1-2 messages deep, fields with and without label"""
+        r = self.rng
+        msgs = [d for d in f["decls"] if d["k"] == "message"]
+        places = [f["decls"]] + [m["body"] for m in msgs] + [n["body"] for m in msgs for n in m["body"] if n["k"] == "message"]
+        for _ in range(r.range(1, 3)):
+            target = r.choice(self.STD_MSGS)
+            els = []
+            for _ in range(r.range(1, 2)):
+                self.n += 1
+                if syntax == "proto2":
+                    lbl = r.choice(["optional", "repeated"])
+                elif syntax == "proto3":
+                    lbl = r.choice(["", "", "optional", "repeated"])
+                else:
+                    lbl = r.choice(["", "", "repeated"])
+                els.append({"k": "field", "label": lbl, "type": r.choice(SCALARS), "name": "opt%d" % self.n, "num": 50000 + self.n, "opts": []})
+            r.choice(places).append({"k": "extend", "extendee": r.choice([".google.protobuf." + target, "google.protobuf." + target]), "elems": els})
+
     def program(self, nfiles=None):
         r = self.rng
         nfiles = nfiles or (r.choice([1, 1, 1, 2, 2, 3]) if self.small else r.choice([1, 1, 2, 2, 3, 4]))
         self.imports_idx, self.public_idx = [], []
-        for fi in range(nfiles):
+        use_std = r.chance(1, 3)
+        if use_std:
+            self.files.append(self.std_file())
+            self.imports_idx.append([])
+            self.public_idx.append([])
+            for nm in self.STD_MSGS:
+                self.types.append({"fqn": "google.protobuf." + nm, "kind": "message", "file": 0, "syntax": "proto2", "extr": []})
+            nfiles += 1
+        for fi in range(1 if use_std else 0, nfiles):
             syntax = r.choice(["proto2", "proto2", "proto3", "proto3", "editions"])
             pkg = r.choice(PKGS)
             imports, idx, pub = [], [], []
-            for j in range(fi):
+            for j in range(1 if use_std else 0, fi):
                 if r.chance(1, 2):
                     kind = "public" if r.chance(1, 3) else ""
                     imports.append({"path": "f%d.proto" % j, "kind": kind})
@@ -782,6 +914,10 @@ class Gen:
                 s = self.gen_service(fi, pkg)
                 if s:
                     f["decls"].append(s)
+            if use_std and r.chance(2, 3):
+                f["imports"].append({"path": self.STD, "kind": ""})
+                idx.append(0)
+                self.option_extends(fi, syntax, f)
             f["decls"] = r.shuffle(f["decls"])
         return self.files
 
@@ -1363,6 +1499,81 @@ class Mutator:
             s[3]["extendee"] = "." + ".".join(([files[en[0]]["package"]] if files[en[0]]["package"] else []) + en[4] + [en[3]["name"]])
         return True
 
+    def m_extension_declaration(self, files):
+        """break (or move to the other side of a boundary) one fact of the extension-declaration family"""
+        ms = [m for m in msg_sites(files) if any(e["k"] == "extensions" and e.get("adj") for e in m[3]["body"])]
+        m = self.pick(ms)
+        if not m:
+            return None
+        body = m[3]["body"]
+        sts = [e for e in body if e["k"] == "extensions" and e.get("adj")]
+        exb = [e for e in body if e["k"] == "extend"]
+        fq = ".".join(([files[m[0]]["package"]] if files[m[0]]["package"] else []) + m[4] + [m[3]["name"]])
+        syn = syntax_of(files, m[0])
+        lbl = "optional" if syn == "proto2" else ""
+        r = self.rng
+        k = r.below(9)
+        bounds = []
+        for st in sts:
+            a = int(st["ranges"][0]["s"])
+            b = a if st["ranges"][0]["e"] is None else int(st["ranges"][0]["e"])
+            bounds += [a, b]
+        if k == 0 and exb and exb[-1]["elems"]:          # an extension moved onto another boundary number
+            f = self.pick(exb[-1]["elems"])
+            f["num"] = self.pick(bounds + [min(bounds) - 1, max(bounds) + 1])
+        elif k == 1 and exb and exb[-1]["elems"]:        # type mismatch
+            f = self.pick(exb[-1]["elems"])
+            f["type"] = "bytes" if f["type"] != "bytes" else "int32"
+        elif k == 2 and exb and exb[-1]["elems"]:        # name mismatch
+            self.pick(exb[-1]["elems"])["name"] += "x"
+        elif k == 3 and exb and exb[-1]["elems"]:        # cardinality mismatch
+            f = self.pick(exb[-1]["elems"])
+            f["label"] = lbl if f["label"] == "repeated" else "repeated"
+        elif k == 4:                                     # a declaration becomes reserved / loses its number
+            st = self.pick([s for s in sts if s.get("xopts") and s["xopts"]["decls"]])
+            if not st:
+                return None
+            d = self.pick(st["xopts"]["decls"])
+            d["reserved"], d["full_name"], d["type"] = True, None, None
+        elif k == 5:                                     # the declarations move to the neighbouring range
+            have = [i for i, s in enumerate(sts) if s.get("xopts")]
+            if not have or len(sts) < 2:
+                return None
+            i = self.pick(have)
+            j = i + 1 if i + 1 < len(sts) else i - 1
+            sts[i]["xopts"], sts[j]["xopts"] = sts[j].get("xopts"), sts[i]["xopts"]
+            for st in (sts[i], sts[j]):
+                if st.get("xopts") is None:
+                    st.pop("xopts", None)
+                    continue
+                a = int(st["ranges"][0]["s"])
+                b = a if st["ranges"][0]["e"] is None else int(st["ranges"][0]["e"])
+                used = set()
+                for q, d in enumerate(list(st["xopts"]["decls"])):     # keep the declarations inside their new range
+                    n = [a, b, a + 1, b - 1][q % 4]
+                    if n < a or n > b or n in used:
+                        st["xopts"]["decls"].remove(d)
+                        continue
+                    used.add(n)
+                    d["number"] = n
+        elif k == 6:                                     # a new undeclared extension on a boundary number
+            self_ext = {"k": "field", "label": lbl, "type": r.choice(["int32", "string"]), "name": "zq_xb", "num": self.pick(bounds), "opts": []}
+            if exb:
+                exb[-1]["elems"].append(self_ext)
+            else:
+                body.append({"k": "extend", "extendee": "." + fq, "elems": [self_ext]})
+        elif k == 7:                                     # verification flipped
+            st = self.pick([s for s in sts if s.get("xopts")])
+            if not st:
+                return None
+            st["xopts"]["verification"] = {"DECLARATION": None, None: "DECLARATION", "UNVERIFIED": "DECLARATION"}[st["xopts"]["verification"]]
+        else:                                            # a declaration removed
+            st = self.pick([s for s in sts if s.get("xopts") and s["xopts"]["decls"]])
+            if not st:
+                return None
+            st["xopts"]["decls"].remove(self.pick(st["xopts"]["decls"]))
+        return True
+
     def m_proto3_extend(self, files):
         fi = self.pick([i for i, f in enumerate(files) if f["syntax"] == "proto3"])
         if fi is None:
@@ -1645,6 +1856,45 @@ def _corpus():
     add("enum-json-prefix-underscores", P3 + "enum Foo_Bar { FOOBAR_X = 0; FOO_BAR__X = 1; }")
     add("enum-json-prefix-all", P3 + "enum Foo { FOO = 0; FOO_ = 1; }")
     add("enum-json-case", P3 + "enum E { ab_c = 0; AB_C = 1; }")
+    DECL = 'verification=DECLARATION, declaration={ number: %d full_name: ".foo.e%d" type: "%s" %s}'
+    for first_declared in (True, False):
+        for num in (1, 10, 11, 20):
+            for variant in ("match", "type", "name", "undeclared", "reserved", "repeated"):
+                dn = num if variant != "undeclared" else ((5 if num != 5 else 6) if num <= 10 else 15)
+                extra = "reserved: true " if variant == "reserved" else ("repeated: true " if variant == "repeated" else "")
+                decl = DECL % (dn, num if variant != "name" else 99, "int32" if variant != "type" else "string", extra)
+                if variant == "reserved":
+                    decl = "verification=DECLARATION, declaration={ number: %d reserved: true }" % dn
+                inside = (num <= 10) == first_declared
+                if not inside and variant != "match":
+                    continue          # the declaration would lie outside its range: a different rule
+                if not inside:
+                    decl = "verification=DECLARATION, declaration={ number: %d full_name: \".foo.other\" type: \"int32\" }" % (5 if first_declared else 15)
+                r1 = "extensions 1 to 10 [%s];" % decl if first_declared else "extensions 1 to 10;"
+                r2 = "extensions 11 to 20;" if first_declared else "extensions 11 to 20 [%s];" % decl
+                add("extdecl-%s-%d-%s" % ("first" if first_declared else "second", num, variant),
+                    P2 + 'import "extendee.proto"; package foo; extend A { optional int32 e%d = %d; }' % (num, num),
+                    {"extendee.proto": P2 + "message A { %s %s }" % (r1, r2)})
+    STD = {"google/protobuf/descriptor.proto": P2 + "package google.protobuf; message FieldOptions { extensions 1000 to max; } "
+           "message ServiceOptions { extensions 1000 to max; } message FileOptions { extensions 1000 to max; }"}
+    add("p3-extend-nested-nolabel", P3 + 'package demo; import "google/protobuf/descriptor.proto"; extend google.protobuf.FileOptions { int32 top = 50001; } '
+        "message M { extend google.protobuf.FieldOptions { string note = 50002; optional string note2 = 50005; } "
+        "message N { extend google.protobuf.ServiceOptions { M holder = 50003; repeated int32 r = 50004; } "
+        "message O { extend google.protobuf.FieldOptions { bool deep = 50006; } } } }", STD)
+    add("ed-extend-nested-nolabel", ED + "package demo; message X { extensions 5 to 99; } extend X { int32 top = 5; } "
+        "message M { extend X { string note = 6; repeated string notes = 7; } message N { extend X { M holder = 8; } "
+        "message O { extend X { bool deep = 9; group } } } }".replace(" group }", " }"))
+    add("p2-extend-nested", P2 + "package demo; message X { extensions 5 to 99; } "
+        "message M { extend X { optional string note = 6; } message N { extend X { repeated M holder = 8; optional group Grp = 9 { } } } }")
+    for num in (10, 11, 20):
+        add("extdecl-samefile-undeclared-%d" % num, P2 + 'package foo; message A { extensions 1 to 10; extensions 11 to 20 [verification=DECLARATION, '
+            'declaration={ number: 15 full_name: ".foo.other" type: "int32" }]; } extend A { optional int32 e = %d; }' % num)
+    add("extdecl-unverified", P2 + "package foo; message A { extensions 1 to 10 [verification=UNVERIFIED]; extensions 11 to 20 [verification=DECLARATION]; } "
+        "extend A { optional int32 a = 10; }")
+    add("extdecl-unverified-11", P2 + "package foo; message A { extensions 1 to 10 [verification=UNVERIFIED]; extensions 11 to 20 [verification=DECLARATION]; } "
+        "extend A { optional int32 a = 11; }")
+    add("extdecl-three-ranges", P2 + 'package foo; message A { extensions 1 to 4; extensions 5 [declaration={number: 5 full_name: ".foo.A.five" type: ".foo.A" repeated: true}]; '
+        'extensions 6 to 9; extend A { repeated A five = 5; optional string four = 4; optional string six = 6; } }')
     add("map-enum-nonzero", P2 + "enum E { A = 1; } message M { map<int32, E> m = 1; }")
     add("map-enum-zero", P2 + "enum E { A = 0; B = 1; } message M { map<int32, E> m = 1; }")
     add("map-enum-second-zero", P2 + "enum E { B = 1; A = 0; } message M { map<string, E> m = 1; optional E e = 2; repeated E r = 3; }")
@@ -1751,6 +2001,9 @@ def gen_cases(rng, nprog, nmut, small=False):
             m = mu.apply(nm, files)
             if m is not None:
                 progs.append((nm, m))
+        m = mu.apply("extension_declaration", files)
+        if m is not None:
+            progs.append(("extension_declaration", m))
     return progs
 
 
